@@ -749,6 +749,8 @@ def path_conditions(fn, is_target):
                         if isinstance(x, ast.stmt):
                             conds = kill(conds, x)
                             inside |= _assigned_texts(x)
+                if _is_const(g, False):
+                    break       # both arms leave: the rest of the block is unreachable
                 if not _is_const(g, True) and not _mentions(g, inside):
                     conds.append((g, True))
             elif isinstance(s, (ast.For, ast.While)):
@@ -777,6 +779,8 @@ def path_conditions(fn, is_target):
             else:
                 in_expr(s, conds)
                 conds = kill(conds, s)
+                if isinstance(s, (ast.Return, ast.Raise, ast.Continue, ast.Break)):
+                    break       # the rest of the block is unreachable
     rec(fn.body, [])
     return res
 
